@@ -18,7 +18,8 @@
     opt x  := (none) | (some x)
 
   reply  := (ok (model <optdata> (errs <err>…)) <spec> (hyp true|false)) | (stuck "<why>" <spec>) | bad-op
-    hyp    := the decidable hypotheses of theorem exec_correct_total hold for this (schema, document)
+    hyp    := the decidable hypotheses of theorem exec_correct_total_driver hold for this (schema, document);
+              `auto` fuel is fuelFor2 (the fuel that theorem speaks about)
     spec   := (spec requestError) | (spec stuck) | (spec <optdata> (all <err>…) (req <err>…) true|false)
     json   := null | (b true|false) | (i z) | (n m e) | (s "…") | (a <json>…) | (o (kv "k" <json>)…)
     err    := (e <msg> (path (k "s") | (i n) …) (locs (<line> <col>)…))
@@ -28,6 +29,9 @@ import ApiFu.Common.Loop
 import ApiFu.C01.Model
 import ApiFu.C01.Spec
 import ApiFu.C01.Lemmas
+import ApiFu.C01.Typing
+import ApiFu.C01.Acyclic
+import ApiFu.C01.Syntactic
 
 open ApiFu ApiFu.C01
 
@@ -214,6 +218,13 @@ def specSexp : Spec.Result → Sexp
   | .executed o => Sexp.node "spec" [optData o.data, Sexp.node "all" (o.all.map errSexp),
       Sexp.node "req" (o.req.map errSexp), Sexp.ofBool o.undef]
 
+/-- the decidable hypotheses of theorems `exec_correct_total_driver` and `exec_correct_total_validated`
+    (PropsTyping.lean) -/
+def driverHypotheses (S : Schema) (D : Document) : Bool :=
+  decide ((D.nodes.map Selection.pos).Nodup) && D.nodes.all (fun s => decide s.keyOK) &&
+    S.closedCheck && D.condsCheck S && D.noSpreadCycle && D.typeCheck S &&
+    D.typed S && S.wfCheck && D.mergeOK S
+
 def handle (line : String) : String :=
   match Sexp.parse line with
   | some (.list [.atom "case", s, d, w, .atom opName, fuel]) =>
@@ -221,13 +232,13 @@ def handle (line : String) : String :=
     | some S, some D, some W =>
       let fuel := match fuel.nat? with
         | some n => n
-        | none => fuelFor S D
+        | none => fuelFor2 S D
       let spec := Spec.executeRequest S D fuel opName W
       match execute true S D fuel opName W with
       | .error st => toString (Sexp.node "stuck" [Sexp.str (stuckText st), specSexp spec])
       | .ok resp =>
         toString (Sexp.node "ok" [Sexp.node "model" [optData resp.data, Sexp.node "errs" (resp.errors.map errSexp)], specSexp spec,
-          Sexp.node "hyp" [Sexp.ofBool (hypothesesHold S D)]])
+          Sexp.node "hyp" [Sexp.ofBool (driverHypotheses S D)]])
     | _, _, _ => "bad-op"
   | _ => "bad-op"
 
